@@ -726,6 +726,10 @@ def entries(summary, attr=None, name=None):
                 a.key = T.idx(bv, T.num(0))
                 out.append(a)
     for e in summary.events:
+        if e.kind == "call" and e.fname == ("m", "setdefault") and len(e.args) == 2 and attr is None and name is None:
+            a = Addition(None, e.recv, e.args[1], e.guard, e.node, "setdefault")
+            a.key = e.args[0]
+            out.append(a)
         if e.kind == "store" and e.sub and (attr is None or e.attr == attr) and (name is None or e.attr == "$" + name or e.attr == name):
             a = Addition(e.attr, e.base, e.value, e.guard, e.node, "store")
             a.key = e.key
